@@ -205,8 +205,10 @@ def compose_instances(tier):
     names = [("compose_a0", 0), ("compose_a1", 1), ("compose_a2", 2), ("match_list_a1", 1)] if tier == "quick" else \
             [("compose_a0", 0), ("compose_a1", 1), ("compose_a2", 2), ("compose_a3", 3), ("match_list_a1", 1), ("match_list_a2", 2)]
     for n, a in names:
-        out.append(Inst(n, 10, None, ["C15"], {"atoms": a, "kinds": "symbolic", "polarity": "symbolic", "per-atom outcomes and scores": "symbolic (stub table)",
-                                                "inputs": 3 if n.startswith("match_list") else 1}, None))
+        i = Inst(n, 10, None, ["C15"], {"atoms": a, "kinds": "symbolic", "polarity": "symbolic", "per-atom outcomes and scores": "symbolic (stub table)",
+                                        "inputs": 3 if n.startswith("match_list") else 1}, None)
+        i.cbmc_extra = ["--max-field-sensitivity-array-size", "512"]
+        out.append(i)
     return out
 
 
@@ -216,6 +218,29 @@ def utf32_instances(tier):
             [("convert_ascii_l2", 2), ("convert_ascii_l3", 3), ("convert_ascii_l4", 4), ("views_ascii_l3", 3), ("views_unicode_l3", 3), ("views_unicode_l4", 4)]
     for n, l in names:
         out.append(Inst(n, 12, None, ["C17"], {"L": l, "content": "symbolic ASCII bytes (all CR/LF arrangements)" if "ascii" in n else "symbolic scalars", "ranges": "symbolic valid ranges"}, None))
+    return out
+
+
+def dispatch_instances(tier):
+    out = []
+    combos = []
+    for uh in (False, True):
+        for un in (False, True):
+            for gr in (False, True):
+                for ix in (False, True):
+                    combos.append((uh, un, gr, ix))
+    sizes = [(4, 2), (3, 1), (3, 3)] if tier == "quick" else [(4, 2), (5, 3), (3, 1), (4, 1), (3, 3), (2, 3), (3, 0)]
+    k = 0
+    for (h, n) in sizes:
+        for (uh, un, gr, ix) in combos:
+            k += 1
+            if tier == "quick" and (h, n) != (4, 2) and k % 4 != 0:
+                continue
+            nm = "dispatch_h%d_n%d_%s%s_%s_%s" % (h, n, "u" if uh else "a", "u" if un else "a", "greedy" if gr else "optimal", "idx" if ix else "score")
+            out.append(Inst(nm, 8, "dispatch::<%d, %d>(%s, %s, %s, %s)" % (h, n, str(uh).lower(), str(un).lower(), str(gr).lower(), str(ix).lower()),
+                            ["C01", "C02"], {"H": h, "N": n, "haystack": "code points" if uh else "bytes", "needle": "code points" if un else "bytes",
+                                             "entry": ("fuzzy_indices" if ix else "fuzzy_match") + ("_greedy" if gr else ""),
+                                             "callees": "recording stubs with symbolic window and result"}, "matcher_dispatch"))
     return out
 
 
@@ -244,6 +269,7 @@ FAMILIES = {
     "matcher_pattern": pattern_instances,
     "compose": compose_instances,
     "utf32": utf32_instances,
+    "matcher_dispatch": dispatch_instances,
     "matcher_repr": lambda tier: [],
 }
 
@@ -258,7 +284,7 @@ def write_gen(sc, tier, extra=()):
             if not any(j.name == i.name for j in fams[i.family]):
                 fams[i.family].append(i)
     for fam, insts in fams.items():
-        sc.write_gen(fam + ".rs", gen_text(insts, "harnesses_latin1" if fam == "matcher_uni" else "harnesses"))
+        sc.write_gen(fam + ".rs", gen_text(insts, {"matcher_uni": "harnesses_latin1", "matcher_dispatch": "harnesses_dispatch"}.get(fam, "harnesses")))
     src = open(sc.repo + "/matcher/src/chars/normalize.rs").read()
     txt, meta = ucd_ref.rust_tables(src)
     sc.write_gen("chars_ref.rs", txt)
